@@ -180,17 +180,22 @@ theorem writeFile_spec (fs : FS) (par : Path) (x : Name) (b : Bytes)
 
 theorem removeIfExists_spec (fs : FS) (par : Path) (x : Name)
     (hpar : ∀ q, q <+: par → look fs q = some .dir)
-    (hcur : look fs (par ++ [x]) = none ∨ ∃ t, look fs (par ++ [x]) = some (.link t)) :
+    (hcur : look fs (par ++ [x]) ≠ some .dir) :
     ∃ fs', (Op.removeIfExists (par ++ [x])).apply fs = .ok fs' ∧
       ∀ q, look fs' q = if q = par ++ [x] then none else look fs q := by
   have hp := parentErr_none fs par x hpar
-  rcases hcur with h | ⟨t, h⟩
-  · refine ⟨fs, by simp [Op.apply, remove, hp, h], ?_⟩
+  cases h : look fs (par ++ [x]) with
+  | none =>
+    refine ⟨fs, by simp [Op.apply, remove, hp, h], ?_⟩
     intro q
     by_cases e : q = par ++ [x]
     · simp [e, h]
     · simp [e]
-  · exact ⟨_, by simp [Op.apply, remove, hp, h], fun q => look_set _ _ _ _ (concat_ne_nil par x)⟩
+  | some nd =>
+    cases nd with
+    | dir => exact absurd h hcur
+    | file b => exact ⟨_, by simp [Op.apply, remove, hp, h], fun q => look_set _ _ _ _ (concat_ne_nil par x)⟩
+    | link t => exact ⟨_, by simp [Op.apply, remove, hp, h], fun q => look_set _ _ _ _ (concat_ne_nil par x)⟩
 
 theorem symlink_spec (fs : FS) (to par : Path) (x : Name)
     (hpar : ∀ q, q <+: par → look fs q = some .dir)
@@ -200,23 +205,37 @@ theorem symlink_spec (fs : FS) (to par : Path) (x : Name)
   have hp := parentErr_none fs par x hpar
   exact ⟨_, by simp [symlink, hp, hcur], fun q => look_set _ _ _ _ (concat_ne_nil par x)⟩
 
+/-- Rename of a symlink over anything that is not a directory: atomic replace. -/
 theorem rename_link_spec (fs : FS) (par : Path) (x y : Name) (t : Path) (hxy : x ≠ y)
     (hpar : ∀ q, q <+: par → look fs q = some .dir)
     (ho : look fs (par ++ [x]) = some (.link t))
-    (hn : look fs (par ++ [y]) = none ∨ ∃ t', look fs (par ++ [y]) = some (.link t')) :
+    (hn : look fs (par ++ [y]) ≠ some .dir) :
     ∃ fs', rename fs (par ++ [x]) (par ++ [y]) = .ok fs' ∧
       ∀ q, look fs' q = if q = par ++ [x] then none
                         else if q = par ++ [y] then some (.link t) else look fs q := by
   have hpx := parentErr_none fs par x hpar
   have hpy := parentErr_none fs par y hpar
-  have hne : ¬ (par ++ [x] = par ++ [y]) := by simpa using hxy
   have hlook : ∀ q, look (set (set fs (par ++ [y]) (some (.link t))) (par ++ [x]) none) q
       = if q = par ++ [x] then none else if q = par ++ [y] then some (.link t) else look fs q := by
     intro q
     rw [look_set _ _ _ _ (concat_ne_nil par x), look_set _ _ _ _ (concat_ne_nil par y)]
-  rcases hn with h | ⟨t', h⟩
-  · exact ⟨_, by simp [rename, hpx, hpy, ho, h, hxy], hlook⟩
-  · exact ⟨_, by simp [rename, hpx, hpy, ho, h, hxy], hlook⟩
+  cases h : look fs (par ++ [y]) with
+  | none => exact ⟨_, by simp [rename, hpx, hpy, ho, h, hxy], hlook⟩
+  | some nd =>
+    cases nd with
+    | dir => exact absurd h hn
+    | file b => exact ⟨_, by simp [rename, hpx, hpy, ho, h, hxy], hlook⟩
+    | link t' => exact ⟨_, by simp [rename, hpx, hpy, ho, h, hxy], hlook⟩
+
+/-- Rename of a symlink over an existing directory fails (Go: EEXIST) and changes nothing. -/
+theorem rename_onto_dir_fails (fs : FS) (par : Path) (x y : Name) (t : Path)
+    (hpar : ∀ q, q <+: par → look fs q = some .dir)
+    (ho : look fs (par ++ [x]) = some (.link t))
+    (hn : look fs (par ++ [y]) = some .dir) :
+    rename fs (par ++ [x]) (par ++ [y]) = .error .EEXIST := by
+  have hpx := parentErr_none fs par x hpar
+  have hpy := parentErr_none fs par y hpar
+  simp [rename, hpx, hpy, ho, hn]
 
 theorem removeAll_spec (fs : FS) (par : Path) (x : Name)
     (hpar : ∀ q, q <+: par → look fs q = some .dir) :
@@ -241,6 +260,14 @@ theorem safe_cons_ok {P : FS → Prop} {fs fs' : FS} {op : Op} {rest : List Op}
   | zero => simpa [runOps] using h
   | succ k => simpa [runOps, hop] using hrest k
 
+/-- A failing operation ends the run: every longer prefix leaves the same state. -/
+theorem safe_cons_err {P : FS → Prop} {fs : FS} {op : Op} {rest : List Op} {e : Errno}
+    (h : P fs) (hop : op.apply fs = .error e) : Safe P fs (op :: rest) := by
+  intro k
+  cases k with
+  | zero => simpa [runOps] using h
+  | succ k => simpa [runOps, hop] using h
+
 theorem runOps_append_ok {fs fs' : FS} {a : List Op} (b : List Op)
     (h : runOps fs a = (fs', none)) : runOps fs (a ++ b) = runOps fs' b := by
   induction a generalizing fs with
@@ -250,6 +277,16 @@ theorem runOps_append_ok {fs fs' : FS} {a : List Op} (b : List Op)
     cases hop : op.apply fs with
     | ok fs1 => simp only [hop] at h ⊢; exact ih h
     | error e => simp [hop] at h
+
+theorem runOps_append_err {fs fs' : FS} {a : List Op} {e : Errno} (b : List Op)
+    (h : runOps fs a = (fs', some e)) : runOps fs (a ++ b) = (fs', some e) := by
+  induction a generalizing fs with
+  | nil => simp [runOps] at h
+  | cons op rest ih =>
+    simp only [List.cons_append, runOps] at h ⊢
+    cases hop : op.apply fs with
+    | ok fs1 => simp only [hop] at h ⊢; exact ih h
+    | error e' => simpa [hop] using h
 
 theorem safe_append {P : FS → Prop} {fs fs' : FS} {a b : List Op}
     (ha : Safe P fs a) (hrun : runOps fs a = (fs', none)) (hb : Safe P fs' b) :
@@ -263,8 +300,22 @@ theorem safe_append {P : FS → Prop} {fs fs' : FS} {a b : List Op}
     rw [h1, runOps_append_ok _ hrun]
     exact hb _
 
-theorem safe_last {P : FS → Prop} {fs fs' : FS} {ops : List Op}
-    (h : Safe P fs ops) (_hrun : runOps fs ops = (fs', none)) : P (runOps fs ops).1 := by
+/-- If the first part of a run ends in an error, nothing of the second part happens. -/
+theorem safe_append_err {P : FS → Prop} {fs fs' : FS} {a : List Op} (b : List Op) {e : Errno}
+    (ha : Safe P fs a) (hrun : runOps fs a = (fs', some e)) : Safe P fs (a ++ b) := by
+  intro k
+  rw [List.take_append]
+  by_cases hk : k ≤ a.length
+  · have : k - a.length = 0 := by omega
+    simpa [this] using ha k
+  · have h1 : List.take k a = a := List.take_of_length_le (by omega)
+    rw [h1, runOps_append_err _ hrun]
+    have := ha a.length
+    simpa [hrun] using this
+
+/-- The state in which a run ends (with or without error) is one of the crash states. -/
+theorem safe_last {P : FS → Prop} {fs : FS} {ops : List Op}
+    (h : Safe P fs ops) : P (runOps fs ops).1 := by
   have := h ops.length
   simpa using this
 
@@ -279,6 +330,19 @@ theorem not_ext_prefix (B : Path) (x : Name) (r : Path) : ¬ (B ++ x :: r <+: B)
 theorem prefix_ver_iff (B : Path) (a x : Name) (r : Path) : (B ++ [a] <+: B ++ x :: r) ↔ a = x := by
   simp [List.prefix_append_right_inj, List.cons_prefix_cons]
 
+theorem prefix_verDir (B : Path) (c : Nat) (q : Path) (hq : q <+: verDir B c) :
+    q <+: B ∨ q = verDir B c := by
+  simp only [verDir] at hq ⊢
+  rcases List.prefix_concat_iff.1 hq with h | h
+  · exact Or.inr h
+  · exact Or.inl h
+
+theorem target_not_prefix_ver (B : Path) (c : Nat) : ¬ target B <+: verDir B c := by
+  simp [target, verDir, List.prefix_append_right_inj, List.cons_prefix_cons]
+
+theorem targetNew_not_prefix_ver (B : Path) (c : Nat) : ¬ targetNew B <+: verDir B c := by
+  simp [targetNew, verDir, List.prefix_append_right_inj, List.cons_prefix_cons]
+
 /-! ### the invariant -/
 
 /-- `d` is a directory holding exactly the regular files of the map `m`. -/
@@ -286,19 +350,46 @@ def DirIs (fs : FS) (d : Path) (m : Name → Option Bytes) : Prop :=
   look fs d = some .dir ∧ (∀ nm, look fs (d ++ [nm]) = (m nm).map .file) ∧
     (∀ a b r, look fs (d ++ a :: b :: r) = none)
 
-/-- The target is absent, or a symlink to a version directory holding exactly the files of one
-`Write` call of `H`. -/
-def TgtOK (B : Path) (fs : FS) (clock : Nat) (H : List Files) : Prop :=
-  look fs (target B) = none ∨
-  ∃ n files, n < clock ∧ files ∈ H ∧ look fs (target B) = some (.link (verDir B n)) ∧
+/-- A path no `Write` of this process ever touches or looks below: not an ancestor of the base,
+not the target or `.new`, not a version directory this process may create (id ≥ `c0`). The
+version directories of earlier processes (id < `c0`) are of this kind. -/
+def Foreign (B : Path) (c0 : Nat) (t : Path) : Prop :=
+  ¬ t <+: B ∧ t ≠ target B ∧ t ≠ targetNew B ∧ ∀ n s, c0 ≤ n → t ≠ B ++ .ver n :: s
+
+/-- Every state a process can find when it starts: the ancestors of the base are directories or
+missing; no version directory with an id the process will use (`≥ c0`) exists; `<target>.new`
+is absent, a (stale) symlink or a file; the target is ANYTHING — absent, a symlink left by an
+earlier process (to an existing version directory, dangling, or elsewhere), a plain file or a
+plain directory. Everything else (other entries in the base, other directories) is unconstrained. -/
+structure Prior (B : Path) (c0 : Nat) (fs0 : FS) : Prop where
+  chain : ∀ q, q <+: B → look fs0 q = none ∨ look fs0 q = some .dir
+  fresh : ∀ n, c0 ≤ n → ∀ r, look fs0 (B ++ .ver n :: r) = none
+  tnew : look fs0 (targetNew B) ≠ some .dir
+  tlink : ∀ t, look fs0 (target B) = some (.link t) → Foreign B c0 t
+
+/-- The entry found at the target when the process started is still there, untouched: the entry
+itself, everything below it, and (for a symlink) everything at and below what it points to. -/
+def ForeignKept (B : Path) (fs0 fs : FS) : Prop :=
+  look fs0 (target B) ≠ none ∧ look fs (target B) = look fs0 (target B) ∧
+  (∀ x r, look fs (target B ++ x :: r) = look fs0 (target B ++ x :: r)) ∧
+  (∀ t, look fs0 (target B) = some (.link t) → ∀ r, look fs (t ++ r) = look fs0 (t ++ r))
+
+/-- The target is a symlink to a version directory of this process holding exactly the files of
+one `Write` call of `H`. -/
+def Complete (B : Path) (c0 : Nat) (fs : FS) (clock : Nat) (H : List Files) : Prop :=
+  ∃ n files, c0 ≤ n ∧ n < clock ∧ files ∈ H ∧ look fs (target B) = some (.link (verDir B n)) ∧
     DirIs fs (verDir B n) (asMap files)
 
+def TgtOK (B : Path) (fs0 : FS) (c0 : Nat) (fs : FS) (clock : Nat) (H : List Files) : Prop :=
+  look fs (target B) = none ∨ Complete B c0 fs clock H ∨ ForeignKept B fs0 fs
+
 /-- Crash-robust invariant: holds after every file-system operation of every history. -/
-structure W (B : Path) (fs : FS) (clock : Nat) (H : List Files) : Prop where
+structure W (B : Path) (fs0 : FS) (c0 : Nat) (fs : FS) (clock : Nat) (H : List Files) : Prop where
   chain : ∀ q, q <+: B → look fs q = none ∨ look fs q = some .dir
   fresh : ∀ n, clock ≤ n → ∀ r, look fs (B ++ .ver n :: r) = none
-  tgt : TgtOK B fs clock H
-  tnew : look fs (targetNew B) = none ∨ ∃ t, look fs (targetNew B) = some (.link t)
+  tgt : TgtOK B fs0 c0 fs clock H
+  tnew : look fs (targetNew B) ≠ some .dir
+  le : c0 ≤ clock
 
 /-- Paths a `Write` with version id `c` (and old version `rm`) may modify below the base. -/
 def Touch (B : Path) (c : Nat) (rm : Option Nat) (q : Path) : Prop :=
@@ -308,6 +399,9 @@ def Touch (B : Path) (c : Nat) (rm : Option Nat) (q : Path) : Prop :=
 structure Mid (B : Path) (c : Nat) (rm : Option Nat) (fs fs' : FS) : Prop where
   chain : ∀ q, q <+: B → look fs' q = look fs q ∨ look fs' q = some .dir
   off : ∀ q, ¬ q <+: B → ¬ Touch B c rm q → look fs' q = look fs q
+
+theorem Mid.refl (B : Path) (c : Nat) (rm : Option Nat) (fs : FS) : Mid B c rm fs fs :=
+  ⟨fun _ _ => Or.inl rfl, fun _ _ _ => rfl⟩
 
 theorem Mid.step {B : Path} {c : Nat} {rm : Option Nat} {fs fs' fs'' : FS}
     (h : Mid B c rm fs fs') (hag : ∀ q, ¬ Touch B c rm q → look fs'' q = look fs' q)
@@ -349,6 +443,47 @@ theorem not_touch_ver (B : Path) (c n : Nat) (rm : Option Nat) (r : Path) (hn : 
   · have := (prefix_ver_iff B (.ver k) (.ver n) r).1 h
     simp at this; subst this; exact hrm hk
 
+/-- Nothing a `Write` touches lies at or below a foreign path. -/
+theorem not_touch_foreign {B : Path} {c0 c : Nat} {rm : Option Nat} {t : Path}
+    (hf : Foreign B c0 t) (hc : c0 ≤ c) (hrm : ∀ n, rm = some n → c0 ≤ n) (r : Path) :
+    ¬ (t ++ r <+: B) ∧ ¬ Touch B c rm (t ++ r) := by
+  obtain ⟨h1, h2, h3, h4⟩ := hf
+  have hver : ∀ n, c0 ≤ n → ¬ verDir B n <+: t ++ r := by
+    intro n hn h
+    rcases List.prefix_or_prefix_of_prefix h (List.prefix_append t r) with h' | h'
+    · obtain ⟨s, hs⟩ := h'
+      apply h4 n s hn
+      rw [← hs]; simp [verDir]
+    · rcases prefix_verDir B n t h' with h'' | h''
+      · exact h1 h''
+      · exact h4 n [] hn (by simpa [verDir] using h'')
+  have hleaf : ∀ x : Name, t ≠ B ++ [x] → t ++ r ≠ B ++ [x] := by
+    intro x hx e
+    have : t <+: B ++ [x] := e ▸ List.prefix_append t r
+    rcases List.prefix_concat_iff.1 this with h | h
+    · exact hx h
+    · exact h1 h
+  refine ⟨fun h => h1 ((List.prefix_append t r).trans h), ?_⟩
+  intro h
+  rcases h with h | h | h | ⟨n, hn, h⟩
+  · exact hleaf .tgt h2 h
+  · exact hleaf .tgtNew h3 h
+  · exact hver c hc h
+  · exact hver n (hrm n hn) h
+
+/-- Nothing a `Write` touches lies strictly below the target path. -/
+theorem not_touch_below_target (B : Path) (c : Nat) (rm : Option Nat) (x : Name) (r : Path) :
+    ¬ (target B ++ x :: r <+: B) ∧ ¬ Touch B c rm (target B ++ x :: r) := by
+  have e : target B ++ x :: r = B ++ .tgt :: x :: r := by simp [target]
+  rw [e]
+  refine ⟨not_ext_prefix B _ _, ?_⟩
+  intro h
+  rcases h with h | h | h | ⟨n, _, h⟩
+  · simp [target] at h
+  · simp [targetNew] at h
+  · have := (prefix_ver_iff B (.ver c) .tgt (x :: r)).1 h; simp at this
+  · have := (prefix_ver_iff B (.ver n) .tgt (x :: r)).1 h; simp at this
+
 theorem DirIs.transport {fs fs' : FS} {B : Path} {n : Nat} {m : Name → Option Bytes}
     (h : DirIs fs (verDir B n) m) (hag : ∀ r, look fs' (B ++ .ver n :: r) = look fs (B ++ .ver n :: r)) :
     DirIs fs' (verDir B n) m := by
@@ -364,13 +499,27 @@ theorem DirIs.transport {fs fs' : FS} {B : Path} {n : Nat} {m : Name → Option 
     simp only [verDir, List.append_assoc, List.cons_append, List.nil_append] at h3 ⊢
     rw [this]; exact h3 a b r
 
+theorem ForeignKept.carry {B : Path} {fs0 : FS} {c0 c : Nat} {rm : Option Nat} {fs fs' : FS}
+    (hp : Prior B c0 fs0) (h : ForeignKept B fs0 fs) (hm : Mid B c rm fs fs') (hc : c0 ≤ c)
+    (hrm : ∀ n, rm = some n → c0 ≤ n)
+    (hsame : look fs' (target B) = look fs (target B)) : ForeignKept B fs0 fs' := by
+  obtain ⟨h1, h2, h3, h4⟩ := h
+  refine ⟨h1, by rw [hsame]; exact h2, ?_, ?_⟩
+  · intro x r
+    have := not_touch_below_target B c rm x r
+    rw [hm.off _ this.1 this.2]; exact h3 x r
+  · intro t ht r
+    have := not_touch_foreign (hp.tlink t ht) hc hrm r
+    rw [hm.off _ this.1 this.2]; exact h4 t ht r
+
 /-- The invariant after a step of a `Write`, from the frame facts and the two link clauses. -/
-theorem W_of_mid {B : Path} {c : Nat} {rm : Option Nat} {fs fs' : FS} {H : List Files} (files : Files)
-    (hW : W B fs c H) (hm : Mid B c rm fs fs') (hrm : ∀ n, rm = some n → n < c)
-    (htgt : TgtOK B fs' (c + 1) (files :: H))
-    (htnew : look fs' (targetNew B) = none ∨ ∃ t, look fs' (targetNew B) = some (.link t)) :
-    W B fs' (c + 1) (files :: H) := by
-  refine ⟨?_, ?_, htgt, htnew⟩
+theorem W_of_mid {B : Path} {fs0 : FS} {c0 c : Nat} {rm : Option Nat} {fs fs' : FS} {H : List Files}
+    (files : Files)
+    (hW : W B fs0 c0 fs c H) (hm : Mid B c rm fs fs') (hrm : ∀ n, rm = some n → n < c)
+    (htgt : TgtOK B fs0 c0 fs' (c + 1) (files :: H))
+    (htnew : look fs' (targetNew B) ≠ some .dir) :
+    W B fs0 c0 fs' (c + 1) (files :: H) := by
+  refine ⟨?_, ?_, htgt, htnew, by have := hW.le; omega⟩
   · intro q hq
     rcases hm.chain q hq with h | h
     · rw [h]; exact hW.chain q hq
@@ -381,39 +530,31 @@ theorem W_of_mid {B : Path} {c : Nat} {rm : Option Nat} {fs fs' : FS} {H : List 
     exact hW.fresh n (by omega) r
 
 /-- Before the rename: the target clause carries over. -/
-theorem TgtOK.carry {B : Path} {c : Nat} {rm : Option Nat} {fs fs' : FS} {H : List Files} (files : Files)
-    (h : TgtOK B fs c H) (hm : Mid B c rm fs fs')
-    (hsame : look fs' (target B) = look fs (target B))
-    (hrm : ∀ n, rm = some n → look fs (target B) ≠ some (.link (verDir B n))) :
-    TgtOK B fs' (c + 1) (files :: H) := by
-  rcases h with h | ⟨n, fl, hn, hmem, hl, hd⟩
+theorem TgtOK.carry {B : Path} {fs0 : FS} {c0 c : Nat} {fs fs' : FS} {H : List Files}
+    (files : Files) (hp : Prior B c0 fs0) (hc : c0 ≤ c)
+    (h : TgtOK B fs0 c0 fs c H) (hm : Mid B c none fs fs')
+    (hsame : look fs' (target B) = look fs (target B)) :
+    TgtOK B fs0 c0 fs' (c + 1) (files :: H) := by
+  rcases h with h | ⟨n, fl, hn0, hn, hmem, hl, hd⟩ | h
   · left; rw [hsame]; exact h
-  · right
-    refine ⟨n, fl, by omega, List.mem_cons_of_mem _ hmem, by rw [hsame]; exact hl, ?_⟩
+  · right; left
+    refine ⟨n, fl, hn0, by omega, List.mem_cons_of_mem _ hmem, by rw [hsame]; exact hl, ?_⟩
     apply hd.transport
     intro r
     apply hm.off _ (not_ext_prefix B _ r)
-    apply not_touch_ver B c n rm r (by omega)
-    intro e
-    exact hrm n e hl
-
-theorem Mid.refl (B : Path) (c : Nat) (rm : Option Nat) (fs : FS) : Mid B c rm fs fs :=
-  ⟨fun _ _ => Or.inl rfl, fun _ _ _ => rfl⟩
+    exact not_touch_ver B c n none r (by omega) (by simp)
+  · right; right
+    exact h.carry hp hm hc (by simp) hsame
 
 /-- Any state of a `Write` before its rename satisfies the invariant. -/
-theorem pre_ok {B : Path} {c : Nat} {fs fs' : FS} {H : List Files} (files : Files)
-    (hW : W B fs c H) (hm : Mid B c none fs fs')
+theorem pre_ok {B : Path} {fs0 : FS} {c0 c : Nat} {fs fs' : FS} {H : List Files} (files : Files)
+    (hp : Prior B c0 fs0) (hW : W B fs0 c0 fs c H) (hm : Mid B c none fs fs')
     (hT : look fs' (target B) = look fs (target B))
-    (hTN : look fs' (targetNew B) = none ∨ ∃ t, look fs' (targetNew B) = some (.link t)) :
-    W B fs' (c + 1) (files :: H) :=
-  W_of_mid files hW hm (by simp) (hW.tgt.carry files hm hT (by simp)) hTN
-
-theorem pre_ok' {B : Path} {c : Nat} {fs fs' : FS} {H : List Files} (files : Files)
-    (hW : W B fs c H) (hm : Mid B c none fs fs')
-    (hT : look fs' (target B) = look fs (target B))
-    (hTN : look fs' (targetNew B) = none ∨ ∃ t, look fs' (targetNew B) = some (.link t)) :
-    W B fs' (c + 1) (files :: H) ∧ (look fs (target B) ≠ none → look fs' (target B) ≠ none) :=
-  ⟨pre_ok files hW hm hT hTN, fun h => by rw [hT]; exact h⟩
+    (hTN : look fs' (targetNew B) ≠ some .dir) :
+    W B fs0 c0 fs' (c + 1) (files :: H) ∧
+      (look fs' (target B) = look fs (target B) ∨
+        (look fs' (target B) = some (.link (verDir B c)) ∧ look fs (target B) ≠ some .dir)) :=
+  ⟨W_of_mid files hW hm (by simp) (hW.tgt.carry files hp hW.le hm hT) hTN, Or.inl hT⟩
 
 /-! ### one Write, step by step -/
 
@@ -422,8 +563,12 @@ def upd (m : Name → Option Bytes) (kb : Name × Bytes) : Name → Option Bytes
 
 theorem asMap_eq (files : Files) : asMap files = files.foldl upd (fun _ => none) := rfl
 
+/-- All file names are single path components. -/
+def AllValid (files : Files) : Prop := ∀ kb ∈ files, validName kb.1 = true
+
 def wfOps (B : Path) (c : Nat) (files : Files) : List Op :=
-  files.map (fun kb => Op.writeFile (verDir B c ++ [kb.1]) kb.2)
+  files.map (fun kb =>
+    if validName kb.1 then Op.writeFile (verDir B c ++ [kb.1]) kb.2 else Op.badName kb.1)
 
 def tailOps (B : Path) : Option Nat → List Op
   | some n => [.removeAll (verDir B n)]
@@ -448,48 +593,61 @@ theorem prefix_ne_child {d q : Path} (hq : q <+: d) (nm : Name) : q ≠ d ++ [nm
   simp [e] at this
   omega
 
+/-- The file loop: every crash state satisfies `P`; it runs to its end iff all names are valid,
+and stops at the first invalid name otherwise, having written a prefix of the files. -/
 theorem loop_spec (B : Path) (c : Nat) (P : FS → Prop) (fs2 : FS)
     (hdir : ∀ q, q <+: verDir B c → look fs2 q = some .dir)
     (hP : ∀ fs' m, LoopInv B c fs2 fs' m → P fs') :
     ∀ (rest : Files) (fs' : FS) (m : Name → Option Bytes), LoopInv B c fs2 fs' m →
       Safe P fs' (wfOps B c rest) ∧
-      ∃ fs'', runOps fs' (wfOps B c rest) = (fs'', none) ∧
-        LoopInv B c fs2 fs'' (rest.foldl upd m) := by
+      ∃ fs'' e m', runOps fs' (wfOps B c rest) = (fs'', e) ∧ LoopInv B c fs2 fs'' m' ∧
+        (e = none → m' = rest.foldl upd m) ∧ (e = none ↔ AllValid rest) := by
   intro rest
   induction rest with
   | nil =>
     intro fs' m h
-    exact ⟨safe_nil (hP _ _ h), fs', rfl, h⟩
+    exact ⟨safe_nil (hP _ _ h), fs', none, m, rfl, h, fun _ => rfl, by simp [AllValid]⟩
   | cons kb rest ih =>
     intro fs' m h
-    have hpar : ∀ q, q <+: verDir B c → look fs' q = some .dir := by
-      intro q hq
-      rw [h.off q (fun nm => prefix_ne_child hq nm)]
-      exact hdir q hq
-    have hcur : look fs' (verDir B c ++ [kb.1]) = none ∨
-        ∃ b', look fs' (verDir B c ++ [kb.1]) = some (.file b') := by
-      rw [h.files kb.1]
-      cases m kb.1 with
-      | none => left; rfl
-      | some b' => right; exact ⟨b', rfl⟩
-    obtain ⟨fs1, hrun, hlook⟩ := writeFile_spec fs' (verDir B c) kb.1 kb.2 hpar hcur
-    have hinv : LoopInv B c fs2 fs1 (upd m kb) := by
-      constructor
-      · intro nm
-        rw [hlook]
-        by_cases e : nm = kb.1
-        · subst e; simp [upd]
-        · have : ¬ (verDir B c ++ [nm] = verDir B c ++ [kb.1]) := by simpa using e
-          simp [this, upd, e, h.files nm]
-      · intro q hq
-        rw [hlook]
-        simp [hq kb.1, h.off q hq]
-    obtain ⟨hsafe, fs'', hrun', hinv'⟩ := ih fs1 (upd m kb) hinv
-    refine ⟨?_, fs'', ?_, ?_⟩
-    · exact safe_cons_ok (hP _ _ h) (by simpa [Op.apply] using hrun) hsafe
-    · simp only [wfOps, List.map_cons, runOps, Op.apply, hrun]
-      exact hrun'
-    · simpa using hinv'
+    by_cases hv : validName kb.1 = true
+    · have hpar : ∀ q, q <+: verDir B c → look fs' q = some .dir := by
+        intro q hq
+        rw [h.off q (fun nm => prefix_ne_child hq nm)]
+        exact hdir q hq
+      have hcur : look fs' (verDir B c ++ [kb.1]) = none ∨
+          ∃ b', look fs' (verDir B c ++ [kb.1]) = some (.file b') := by
+        rw [h.files kb.1]
+        cases m kb.1 with
+        | none => left; rfl
+        | some b' => right; exact ⟨b', rfl⟩
+      obtain ⟨fs1, hrun, hlook⟩ := writeFile_spec fs' (verDir B c) kb.1 kb.2 hpar hcur
+      have hinv : LoopInv B c fs2 fs1 (upd m kb) := by
+        constructor
+        · intro nm
+          rw [hlook]
+          by_cases e : nm = kb.1
+          · subst e; simp [upd]
+          · have : ¬ (verDir B c ++ [nm] = verDir B c ++ [kb.1]) := by simpa using e
+            simp [this, upd, e, h.files nm]
+        · intro q hq
+          rw [hlook]
+          simp [hq kb.1, h.off q hq]
+      obtain ⟨hsafe, fs'', e, m', hrun', hinv', hm', hiff⟩ := ih fs1 (upd m kb) hinv
+      have hop : (if validName kb.1 then Op.writeFile (verDir B c ++ [kb.1]) kb.2
+          else Op.badName kb.1).apply fs' = .ok fs1 := by simpa [hv, Op.apply] using hrun
+      refine ⟨?_, fs'', e, m', ?_, hinv', ?_, ?_⟩
+      · exact safe_cons_ok (hP _ _ h) hop hsafe
+      · simp only [wfOps, List.map_cons, runOps, hop]
+        exact hrun'
+      · intro he; simpa using hm' he
+      · rw [hiff]
+        simp [AllValid, hv]
+    · have hop : (if validName kb.1 then Op.writeFile (verDir B c ++ [kb.1]) kb.2
+          else Op.badName kb.1).apply fs' = .error .BADNAME := by simp [hv, Op.apply]
+      refine ⟨?_, fs', some .BADNAME, m, ?_, h, by simp, ?_⟩
+      · exact safe_cons_err (hP _ _ h) hop
+      · simp only [wfOps, List.map_cons, runOps, hop]
+      · simp [AllValid, hv]
 
 /-- A prefix of the operations of a `Write` that is long enough to contain the rename consists of
 everything up to the rename plus nothing or the whole tail (the removal of the old version). -/
@@ -526,32 +684,36 @@ structure Final (B : Path) (c : Nat) (prev : Option Nat) (fs fs' : FS) (files : 
   gone : ∀ n, prev = some n → ∀ r, look fs' (B ++ .ver n :: r) = none
   base : ∀ q, q <+: B → look fs' q = some .dir
 
-/-- What every crash state of a `Write` started in `fs` satisfies: the invariant, and a target
-that was present is still present. -/
-abbrev Post (B : Path) (c : Nat) (files : Files) (H : List Files) (fs : FS) : FS → Prop :=
-  fun fs' => W B fs' (c + 1) (files :: H) ∧
-    (look fs (target B) ≠ none → look fs' (target B) ≠ none)
+/-- What a `Write` that returned an error leaves behind: it stopped at or before its rename;
+the target entry is the one from before the call and nothing outside the new version directory
+and `<target>.new` changed (`Mid`: in particular what the target points to is intact). -/
+structure Failed (B : Path) (c : Nat) (fs fs' : FS) : Prop where
+  mid : Mid B c none fs fs'
+  tgt : look fs' (target B) = look fs (target B)
 
-theorem prefix_verDir (B : Path) (c : Nat) (q : Path) (hq : q <+: verDir B c) :
-    q <+: B ∨ q = verDir B c := by
-  simp only [verDir] at hq ⊢
-  rcases List.prefix_concat_iff.1 hq with h | h
-  · exact Or.inr h
-  · exact Or.inl h
+/-- How a `Write` (operations `ops`) ends. -/
+structure Outcome (B : Path) (c : Nat) (prev : Option Nat) (fs : FS) (files : Files)
+    (fs' : FS) (e : Option Errno) : Prop where
+  ok_iff : e = none ↔ (AllValid files ∧ look fs (target B) ≠ some .dir)
+  fin : e = none → Final B c prev fs fs' files
+  failed : e ≠ none → Failed B c fs fs'
+  after : e = none → ∀ k, files.length + 5 ≤ k →
+    look (runOps fs ((writeOps B prev c files).take k)).1 (target B) = some (.link (verDir B c))
 
-theorem target_not_prefix_ver (B : Path) (c : Nat) : ¬ target B <+: verDir B c := by
-  simp [target, verDir, List.prefix_append_right_inj, List.cons_prefix_cons]
+/-- What every crash state of a `Write` started in `fs` satisfies: the invariant, and the target
+entry is the one from before the call or — only if that was not a directory — the link to this
+call's version directory. -/
+abbrev Post (B : Path) (fs0 : FS) (c0 c : Nat) (files : Files) (H : List Files) (fs : FS) : FS → Prop :=
+  fun fs' => W B fs0 c0 fs' (c + 1) (files :: H) ∧
+    (look fs' (target B) = look fs (target B) ∨
+      (look fs' (target B) = some (.link (verDir B c)) ∧ look fs (target B) ≠ some .dir))
 
-theorem targetNew_not_prefix_ver (B : Path) (c : Nat) : ¬ targetNew B <+: verDir B c := by
-  simp [targetNew, verDir, List.prefix_append_right_inj, List.cons_prefix_cons]
-
-theorem write_spec (B : Path) (fs : FS) (c : Nat) (H : List Files) (files : Files) (prev : Option Nat)
-    (hW : W B fs c H)
-    (hprev : ∀ n, prev = some n → n < c ∧ look fs (target B) = some (.link (verDir B n))) :
-    Safe (Post B c files H fs) fs (writeOps B prev c files) ∧
-    (∃ fs', runOps fs (writeOps B prev c files) = (fs', none) ∧ Final B c prev fs fs' files) ∧
-    (∀ k, files.length + 5 ≤ k →
-      look (runOps fs ((writeOps B prev c files).take k)).1 (target B) = some (.link (verDir B c))) := by
+theorem write_spec (B : Path) (fs0 : FS) (c0 : Nat) (hp : Prior B c0 fs0)
+    (fs : FS) (c : Nat) (H : List Files) (files : Files) (prev : Option Nat)
+    (hW : W B fs0 c0 fs c H)
+    (hprev : ∀ n, prev = some n → c0 ≤ n ∧ n < c ∧ look fs (target B) = some (.link (verDir B n))) :
+    Safe (Post B fs0 c0 c files H fs) fs (writeOps B prev c files) ∧
+    ∃ fs' e, runOps fs (writeOps B prev c files) = (fs', e) ∧ Outcome B c prev fs files fs' e := by
   -- phase A: the two MkdirAll calls
   obtain ⟨fs1, hr1, h1⟩ := mkdirAll_spec fs B hW.chain
   have hVnone : look fs (verDir B c) = none := by
@@ -594,26 +756,29 @@ theorem write_spec (B : Path) (fs : FS) (c : Nat) (H : List Files) (files : File
     rw [h2']; simp [target_not_prefix_ver]
   have hTN2 : look fs2 (targetNew B) = look fs (targetNew B) := by
     rw [h2']; simp [targetNew_not_prefix_ver]
-  have hP0 : Post B c files H fs fs := pre_ok' files hW hm0 rfl hW.tnew
-  have hP1 : Post B c files H fs fs1 := pre_ok' files hW hm1 hT1 (by rw [hTN1]; exact hW.tnew)
-  have hP2 : Post B c files H fs fs2 := pre_ok' files hW hm2 hT2 (by rw [hTN2]; exact hW.tnew)
+  have hP0 : Post B fs0 c0 c files H fs fs := pre_ok files hp hW hm0 rfl hW.tnew
+  have hP1 : Post B fs0 c0 c files H fs fs1 := pre_ok files hp hW hm1 hT1 (by rw [hTN1]; exact hW.tnew)
+  have hP2 : Post B fs0 c0 c files H fs fs2 := pre_ok files hp hW hm2 hT2 (by rw [hTN2]; exact hW.tnew)
   -- phase B: the file loop
   have hdir2 : ∀ q, q <+: verDir B c → look fs2 q = some .dir := by
     intro q hq; rw [h2']; simp [hq]
-  have child_not_touchfree : ∀ nm, target B ≠ verDir B c ++ [nm] ∧ targetNew B ≠ verDir B c ++ [nm] := by
+  have child_ne : ∀ nm, target B ≠ verDir B c ++ [nm] ∧ targetNew B ≠ verDir B c ++ [nm] := by
     intro nm; simp [target, targetNew, verDir]
-  have hPloop : ∀ fs' m, LoopInv B c fs2 fs' m → Post B c files H fs fs' := by
+  have hmLoop : ∀ fs' m, LoopInv B c fs2 fs' m → Mid B c none fs fs' := by
     intro fs' m hl
-    have hm : Mid B c none fs fs' := by
-      apply hm2.step
-      · intro q hq
-        apply hl.off
-        intro nm e
-        exact hq (Or.inr (Or.inr (Or.inl (e ▸ List.prefix_append _ _))))
-      · exact fun q hq => not_touch_of_prefix B c none q hq
-    apply pre_ok' files hW hm
-    · rw [hl.off _ (fun nm => (child_not_touchfree nm).1)]; exact hT2
-    · rw [hl.off _ (fun nm => (child_not_touchfree nm).2), hTN2]; exact hW.tnew
+    apply hm2.step
+    · intro q hq
+      apply hl.off
+      intro nm e
+      exact hq (Or.inr (Or.inr (Or.inl (e ▸ List.prefix_append _ _))))
+    · exact fun q hq => not_touch_of_prefix B c none q hq
+  have hTLoop : ∀ fs' m, LoopInv B c fs2 fs' m → look fs' (target B) = look fs (target B) := by
+    intro fs' m hl; rw [hl.off _ (fun nm => (child_ne nm).1)]; exact hT2
+  have hTNLoop : ∀ fs' m, LoopInv B c fs2 fs' m → look fs' (targetNew B) = look fs (targetNew B) := by
+    intro fs' m hl; rw [hl.off _ (fun nm => (child_ne nm).2)]; exact hTN2
+  have hPloop : ∀ fs' m, LoopInv B c fs2 fs' m → Post B fs0 c0 c files H fs fs' := by
+    intro fs' m hl
+    exact pre_ok files hp hW (hmLoop fs' m hl) (hTLoop fs' m hl) (by rw [hTNLoop fs' m hl]; exact hW.tnew)
   have hl0 : LoopInv B c fs2 fs2 (fun _ => none) := by
     constructor
     · intro nm
@@ -624,19 +789,41 @@ theorem write_spec (B : Path) (fs : FS) (c : Nat) (H : List Files) (files : File
         simpa [verDir] using hW.fresh c (Nat.le_refl _) [nm]
       simp [hn, this]
     · intro q _; rfl
-  obtain ⟨hsafeB, fs3, hr3, hl3⟩ := loop_spec B c (Post B c files H fs) fs2 hdir2 hPloop files fs2 _ hl0
-  rw [← asMap_eq] at hl3
+  obtain ⟨hsafeB, fs3, e3, m3, hr3, hl3, hm3eq, hiff3⟩ :=
+    loop_spec B c (Post B fs0 c0 c files H fs) fs2 hdir2 hPloop files fs2 _ hl0
+  have hrunA : ∀ tl, runOps fs ([.mkdirAll B, .mkdirAll (verDir B c)] ++ tl) = runOps fs2 tl := by
+    intro tl
+    have e1 : (Op.mkdirAll B).apply fs = .ok fs1 := by simpa [Op.apply] using hr1
+    have e2 : (Op.mkdirAll (verDir B c)).apply fs1 = .ok fs2 := by simpa [Op.apply] using hr2
+    simp [runOps, e1, e2]
+  have hsafeA : ∀ tl, Safe (Post B fs0 c0 c files H fs) fs2 tl →
+      Safe (Post B fs0 c0 c files H fs) fs ([.mkdirAll B, .mkdirAll (verDir B c)] ++ tl) := by
+    intro tl htl
+    refine safe_cons_ok hP0 (by simpa [Op.apply] using hr1) ?_
+    exact safe_cons_ok hP1 (by simpa [Op.apply] using hr2) htl
+  have hm3 : Mid B c none fs fs3 := hmLoop fs3 m3 hl3
+  have hT3 : look fs3 (target B) = look fs (target B) := hTLoop fs3 m3 hl3
+  have hTN3 : look fs3 (targetNew B) = look fs (targetNew B) := hTNLoop fs3 m3 hl3
+  have hP3 : Post B fs0 c0 c files H fs fs3 := hPloop fs3 m3 hl3
+  rw [writeOps_eq]
+  cases e3 with
+  | some err =>
+    -- an invalid file name: the Write returns that error
+    have hnv : ¬ AllValid files := fun h => by have := hiff3.2 h; simp at this
+    refine ⟨hsafeA _ (safe_append_err _ hsafeB hr3), fs3, some err, ?_, ?_⟩
+    · rw [hrunA, runOps_append_err _ hr3]
+    · exact ⟨by simp [hnv], by simp, fun _ => ⟨hm3, hT3⟩, by simp⟩
+  | none =>
+  have hvalid : AllValid files := hiff3.1 rfl
+  have hm3' := hm3eq rfl
+  rw [← asMap_eq] at hm3'
+  subst hm3'
   -- phase C: remove stale .new, symlink, rename
   have hbase3 : ∀ q, q <+: B → look fs3 q = some .dir := by
     intro q hq
     have hq' : q <+: verDir B c := hq.trans (List.prefix_append _ _)
     rw [hl3.off q (fun nm => prefix_ne_child hq' nm)]
     exact hdir2 q hq'
-  have hT3 : look fs3 (target B) = look fs (target B) := by
-    rw [hl3.off _ (fun nm => (child_not_touchfree nm).1)]; exact hT2
-  have hTN3 : look fs3 (targetNew B) = look fs (targetNew B) := by
-    rw [hl3.off _ (fun nm => (child_not_touchfree nm).2)]; exact hTN2
-  have hP3 : Post B c files H fs fs3 := hPloop fs3 _ hl3
   obtain ⟨fs4, hr4, h4⟩ := removeIfExists_spec fs3 B .tgtNew hbase3 (by
     have := hW.tnew; simp only [targetNew] at this hTN3; rw [hTN3]; exact this)
   obtain ⟨fs5, hr5, h5⟩ := symlink_spec fs4 (verDir B c) B .tgtNew (by
@@ -645,23 +832,10 @@ theorem write_spec (B : Path) (fs : FS) (c : Nat) (H : List Files) (files : File
     simp [this]; exact hbase3 q hq) (by rw [h4]; simp)
   have hT5 : look fs5 (target B) = look fs (target B) := by
     rw [h5, h4]; simp [target]; exact hT3
-  obtain ⟨fs6, hr6, h6⟩ := rename_link_spec fs5 B .tgtNew .tgt (verDir B c) (by simp) (by
+  have hbase5 : ∀ q, q <+: B → look fs5 q = some .dir := by
     intro q hq; rw [h5, h4]
     have : q ≠ B ++ [Name.tgtNew] := prefix_ne_child hq _
-    simp [this]; exact hbase3 q hq) (by rw [h5]; simp) (by
-    have h := hW.tgt
-    simp only [target] at hT5
-    rw [hT5]
-    rcases h with h | ⟨n, fl, _, _, hl, _⟩
-    · left; exact h
-    · right; exact ⟨_, hl⟩)
-  have hm3 : Mid B c none fs fs3 := by
-    apply hm2.step
-    · intro q hq
-      apply hl3.off
-      intro nm e
-      exact hq (Or.inr (Or.inr (Or.inl (e ▸ List.prefix_append _ _))))
-    · exact fun q hq => not_touch_of_prefix B c none q hq
+    simp [this]; exact hbase3 q hq
   have hm4 : Mid B c none fs fs4 := by
     apply hm3.step
     · intro q hq
@@ -676,185 +850,217 @@ theorem write_spec (B : Path) (fs : FS) (c : Nat) (H : List Files) (files : File
       have : q ≠ B ++ [Name.tgtNew] := fun e => hq (Or.inr (Or.inl e))
       simp [this]
     · exact fun q hq => not_touch_of_prefix B c none q hq
-  have hm6 : Mid B c none fs fs6 := by
-    apply hm5.step
-    · intro q hq
-      rw [h6]
-      have h1 : q ≠ B ++ [Name.tgtNew] := fun e => hq (Or.inr (Or.inl e))
-      have h2 : q ≠ B ++ [Name.tgt] := fun e => hq (Or.inl e)
-      simp [h1, h2]
-    · exact fun q hq => not_touch_of_prefix B c none q hq
-  have hP4 : Post B c files H fs fs4 := by
-    apply pre_ok' files hW hm4
+  have hP4 : Post B fs0 c0 c files H fs fs4 := by
+    apply pre_ok files hp hW hm4
     · rw [h4]; simp [target]; exact hT3
-    · left; rw [h4]; simp [targetNew]
-  have hP5 : Post B c files H fs fs5 := by
-    apply pre_ok' files hW hm5 hT5
-    right; exact ⟨verDir B c, by rw [h5]; simp [targetNew]⟩
-  -- the new version directory is complete from the end of the loop on
-  have hd3 : DirIs fs3 (verDir B c) (asMap files) := by
-    refine ⟨?_, hl3.files, ?_⟩
-    · rw [hl3.off _ (fun nm => prefix_ne_child (List.prefix_refl _) nm)]
-      exact hdir2 _ (List.prefix_refl _)
-    · intro a b r
-      rw [hl3.off _ (by intro nm; simp), h2']
-      have hn : ¬ (verDir B c ++ a :: b :: r <+: verDir B c) := by
-        intro h; have := h.length_le; simp at this; omega
-      have : look fs (verDir B c ++ a :: b :: r) = none := by
-        simpa [verDir] using hW.fresh c (Nat.le_refl _) (a :: b :: r)
-      simp [hn, this]
-  have hver6 : ∀ r, look fs6 (B ++ .ver c :: r) = look fs3 (B ++ .ver c :: r) := by
-    intro r; rw [h6, h5, h4]; simp
-  have hd6 : DirIs fs6 (verDir B c) (asMap files) := hd3.transport hver6
-  have hT6 : look fs6 (target B) = some (.link (verDir B c)) := by
-    rw [h6]; simp [target]
-  have hTN6 : look fs6 (targetNew B) = none := by
-    rw [h6]; simp [targetNew]
-  have htgt6 : TgtOK B fs6 (c + 1) (files :: H) :=
-    Or.inr ⟨c, files, by omega, by simp, hT6, hd6⟩
-  have hP6 : Post B c files H fs fs6 :=
-    ⟨W_of_mid files hW hm6 (by simp) htgt6 (Or.inl hTN6), fun _ => by rw [hT6]; simp⟩
-  have hbase6 : ∀ q, q <+: B → look fs6 q = some .dir := by
-    intro q hq
-    rw [h6, h5, h4]
-    have h1 : q ≠ B ++ [Name.tgtNew] := prefix_ne_child hq _
-    have h2 : q ≠ B ++ [Name.tgt] := prefix_ne_child hq _
-    simp [h1, h2]; exact hbase3 q hq
-  have hsafeC : ∀ tl (_fsT : FS), Safe (Post B c files H fs) fs6 tl →
-      Safe (Post B c files H fs) fs3
-        ([.removeIfExists (targetNew B), .symlink (verDir B c) (targetNew B),
-          .rename (targetNew B) (target B)] ++ tl) := by
-    intro tl _ htl
-    refine safe_cons_ok hP3 (by simpa [targetNew] using hr4) ?_
-    refine safe_cons_ok hP4 (by simpa [Op.apply, targetNew] using hr5) ?_
-    exact safe_cons_ok hP5 (by simpa [Op.apply, targetNew, target] using hr6) htl
-  have hrunC : ∀ tl, runOps fs3
-        ([.removeIfExists (targetNew B), .symlink (verDir B c) (targetNew B),
-          .rename (targetNew B) (target B)] ++ tl) = runOps fs6 tl := by
-    intro tl
-    have e4 : (Op.removeIfExists (targetNew B)).apply fs3 = .ok fs4 := by simpa [targetNew] using hr4
-    have e5 : (Op.symlink (verDir B c) (targetNew B)).apply fs4 = .ok fs5 := by
-      simpa [Op.apply, targetNew] using hr5
+    · rw [h4]; simp [targetNew]
+  have hP5 : Post B fs0 c0 c files H fs fs5 := by
+    apply pre_ok files hp hW hm5 hT5
+    rw [h5]; simp [targetNew]
+  have e4 : (Op.removeIfExists (targetNew B)).apply fs3 = .ok fs4 := by simpa [targetNew] using hr4
+  have e5 : (Op.symlink (verDir B c) (targetNew B)).apply fs4 = .ok fs5 := by
+    simpa [Op.apply, targetNew] using hr5
+  by_cases hTd : look fs (target B) = some .dir
+  · -- a plain directory sits at the target: Rename fails, nothing but `.new` and the new version exists
+    have hren := rename_onto_dir_fails fs5 B .tgtNew .tgt (verDir B c) hbase5
+      (by rw [h5]; simp) (by have := hT5; simp only [target] at this hTd; rw [this]; exact hTd)
+    have e6 : (Op.rename (targetNew B) (target B)).apply fs5 = .error .EEXIST := by
+      simpa [Op.apply, targetNew, target] using hren
+    refine ⟨hsafeA _ (safe_append hsafeB hr3 ?_), fs5, some .EEXIST, ?_, ?_⟩
+    · exact safe_cons_ok hP3 e4 (safe_cons_ok hP4 e5 (safe_cons_err hP5 e6))
+    · rw [hrunA, runOps_append_ok _ hr3]
+      simp [runOps, e4, e5, e6]
+    · exact ⟨by simp [hTd], by simp, fun _ => ⟨hm5, hT5⟩, by simp⟩
+  · obtain ⟨fs6, hr6, h6⟩ := rename_link_spec fs5 B .tgtNew .tgt (verDir B c) (by simp) hbase5
+      (by rw [h5]; simp) (by have := hT5; simp only [target] at this hTd; rw [this]; exact hTd)
+    have hm6 : Mid B c none fs fs6 := by
+      apply hm5.step
+      · intro q hq
+        rw [h6]
+        have h1 : q ≠ B ++ [Name.tgtNew] := fun e => hq (Or.inr (Or.inl e))
+        have h2 : q ≠ B ++ [Name.tgt] := fun e => hq (Or.inl e)
+        simp [h1, h2]
+      · exact fun q hq => not_touch_of_prefix B c none q hq
+    -- the new version directory is complete from the end of the loop on
+    have hd3 : DirIs fs3 (verDir B c) (asMap files) := by
+      refine ⟨?_, hl3.files, ?_⟩
+      · rw [hl3.off _ (fun nm => prefix_ne_child (List.prefix_refl _) nm)]
+        exact hdir2 _ (List.prefix_refl _)
+      · intro a b r
+        rw [hl3.off _ (by intro nm; simp), h2']
+        have hn : ¬ (verDir B c ++ a :: b :: r <+: verDir B c) := by
+          intro h; have := h.length_le; simp at this; omega
+        have : look fs (verDir B c ++ a :: b :: r) = none := by
+          simpa [verDir] using hW.fresh c (Nat.le_refl _) (a :: b :: r)
+        simp [hn, this]
+    have hver6 : ∀ r, look fs6 (B ++ .ver c :: r) = look fs3 (B ++ .ver c :: r) := by
+      intro r; rw [h6, h5, h4]; simp
+    have hd6 : DirIs fs6 (verDir B c) (asMap files) := hd3.transport hver6
+    have hT6 : look fs6 (target B) = some (.link (verDir B c)) := by
+      rw [h6]; simp [target]
+    have hTN6 : look fs6 (targetNew B) = none := by
+      rw [h6]; simp [targetNew]
+    have htgt6 : TgtOK B fs0 c0 fs6 (c + 1) (files :: H) :=
+      Or.inr (Or.inl ⟨c, files, hW.le, by omega, by simp, hT6, hd6⟩)
+    have hP6 : Post B fs0 c0 c files H fs fs6 :=
+      ⟨W_of_mid files hW hm6 (by simp) htgt6 (by rw [hTN6]; simp), Or.inr ⟨hT6, hTd⟩⟩
+    have hbase6 : ∀ q, q <+: B → look fs6 q = some .dir := by
+      intro q hq
+      rw [h6]
+      have h1 : q ≠ B ++ [Name.tgtNew] := prefix_ne_child hq _
+      have h2 : q ≠ B ++ [Name.tgt] := prefix_ne_child hq _
+      simp [h1, h2]; exact hbase5 q hq
     have e6 : (Op.rename (targetNew B) (target B)).apply fs5 = .ok fs6 := by
       simpa [Op.apply, targetNew, target] using hr6
-    simp [runOps, e4, e5, e6]
-  have hrunA : ∀ tl, runOps fs ([.mkdirAll B, .mkdirAll (verDir B c)] ++ tl) = runOps fs2 tl := by
-    intro tl
-    have e1 : (Op.mkdirAll B).apply fs = .ok fs1 := by simpa [Op.apply] using hr1
-    have e2 : (Op.mkdirAll (verDir B c)).apply fs1 = .ok fs2 := by simpa [Op.apply] using hr2
-    simp [runOps, e1, e2]
-  have hsafeA : ∀ tl, Safe (Post B c files H fs) fs2 tl →
-      Safe (Post B c files H fs) fs ([.mkdirAll B, .mkdirAll (verDir B c)] ++ tl) := by
-    intro tl htl
-    refine safe_cons_ok hP0 (by simpa [Op.apply] using hr1) ?_
-    exact safe_cons_ok hP1 (by simpa [Op.apply] using hr2) htl
-  have hafter : ∀ fsEnd, runOps fs6 (tailOps B prev) = (fsEnd, none) →
-      look fsEnd (target B) = some (.link (verDir B c)) →
-      ∀ k, files.length + 5 ≤ k →
-        look (runOps fs ((writeOps B prev c files).take k)).1 (target B) = some (.link (verDir B c)) := by
-    intro fsEnd hend hTend k hk
-    obtain ⟨tl, htl, htake⟩ := take_writeOps B prev c files k hk
-    rw [htake, hrunA, runOps_append_ok _ hr3, hrunC]
-    rcases htl with h | h
-    · subst h; simpa [runOps] using hT6
-    · subst h; rw [hend]; exact hTend
-  rw [writeOps_eq] at *
-  -- phase D: remove the previous version
-  cases prev with
-  | none =>
-    refine ⟨hsafeA _ (safe_append hsafeB hr3 (hsafeC [] fs6 (safe_nil hP6))), ⟨fs6, ?_, ?_⟩,
-      hafter fs6 rfl hT6⟩
-    · rw [hrunA, runOps_append_ok _ hr3, hrunC]; rfl
-    · exact ⟨hT6, hd6, hTN6, hm6, by simp, hbase6⟩
-  | some n =>
-    obtain ⟨hnc, hTn⟩ := hprev n rfl
-    obtain ⟨fs7, hr7, h7⟩ := removeAll_spec fs6 B (.ver n) hbase6
-    have hnot : ∀ r, ¬ (B ++ [Name.ver n] <+: B ++ Name.ver c :: r) := by
-      intro r h
-      have := (prefix_ver_iff B (.ver n) (.ver c) r).1 h
-      simp at this; omega
-    have hm7 : Mid B c (some n) fs fs7 := by
-      apply (hm6.weaken (rm := some n)).step
-      · intro q hq
+    have hsafeC : ∀ tl, Safe (Post B fs0 c0 c files H fs) fs6 tl →
+        Safe (Post B fs0 c0 c files H fs) fs3
+          ([.removeIfExists (targetNew B), .symlink (verDir B c) (targetNew B),
+            .rename (targetNew B) (target B)] ++ tl) := by
+      intro tl htl
+      exact safe_cons_ok hP3 e4 (safe_cons_ok hP4 e5 (safe_cons_ok hP5 e6 htl))
+    have hrunC : ∀ tl, runOps fs3
+          ([.removeIfExists (targetNew B), .symlink (verDir B c) (targetNew B),
+            .rename (targetNew B) (target B)] ++ tl) = runOps fs6 tl := by
+      intro tl
+      simp [runOps, e4, e5, e6]
+    have hafter : ∀ fsEnd, runOps fs6 (tailOps B prev) = (fsEnd, none) →
+        look fsEnd (target B) = some (.link (verDir B c)) →
+        ∀ k, files.length + 5 ≤ k →
+          look (runOps fs ((writeOps B prev c files).take k)).1 (target B) = some (.link (verDir B c)) := by
+      intro fsEnd hend hTend k hk
+      obtain ⟨tl, htl, htake⟩ := take_writeOps B prev c files k hk
+      rw [htake, hrunA, runOps_append_ok _ hr3, hrunC]
+      rcases htl with h | h
+      · subst h; simpa [runOps] using hT6
+      · subst h; rw [hend]; exact hTend
+    have hok : (none : Option Errno) = none ↔ (AllValid files ∧ look fs (target B) ≠ some .dir) := by
+      simp [hvalid, hTd]
+    -- phase D: remove the previous version
+    cases prev with
+    | none =>
+      refine ⟨hsafeA _ (safe_append hsafeB hr3 (hsafeC [] (safe_nil hP6))), fs6, none, ?_, ?_⟩
+      · rw [hrunA, runOps_append_ok _ hr3, hrunC]; rfl
+      · exact ⟨hok, fun _ => ⟨hT6, hd6, hTN6, hm6, by simp, hbase6⟩, by simp,
+          fun _ => hafter fs6 rfl hT6⟩
+    | some n =>
+      obtain ⟨_, hnc, hTn⟩ := hprev n rfl
+      obtain ⟨fs7, hr7, h7⟩ := removeAll_spec fs6 B (.ver n) hbase6
+      have hnot : ∀ r, ¬ (B ++ [Name.ver n] <+: B ++ Name.ver c :: r) := by
+        intro r h
+        have := (prefix_ver_iff B (.ver n) (.ver c) r).1 h
+        simp at this; omega
+      have hm7 : Mid B c (some n) fs fs7 := by
+        apply (hm6.weaken (rm := some n)).step
+        · intro q hq
+          rw [h7]
+          have : ¬ (B ++ [Name.ver n] <+: q) := fun h => hq (Or.inr (Or.inr (Or.inr ⟨n, rfl, h⟩)))
+          simp [this]
+        · exact fun q hq => not_touch_of_prefix B c (some n) q hq
+      have hT7 : look fs7 (target B) = some (.link (verDir B c)) := by
         rw [h7]
-        have : ¬ (B ++ [Name.ver n] <+: q) := fun h => hq (Or.inr (Or.inr (Or.inr ⟨n, rfl, h⟩)))
-        simp [this]
-      · exact fun q hq => not_touch_of_prefix B c (some n) q hq
-    have hT7 : look fs7 (target B) = some (.link (verDir B c)) := by
-      rw [h7]
-      have : ¬ (B ++ [Name.ver n] <+: target B) := by
-        simp [target, List.prefix_append_right_inj, List.cons_prefix_cons]
-      simp [this, hT6]
-    have hTN7 : look fs7 (targetNew B) = none := by
-      rw [h7]
-      have : ¬ (B ++ [Name.ver n] <+: targetNew B) := by
-        simp [targetNew, List.prefix_append_right_inj, List.cons_prefix_cons]
-      simp [this, hTN6]
-    have hd7 : DirIs fs7 (verDir B c) (asMap files) := by
-      apply hd6.transport
-      intro r; rw [h7]; simp [hnot r]
-    have htgt7 : TgtOK B fs7 (c + 1) (files :: H) :=
-      Or.inr ⟨c, files, by omega, by simp, hT7, hd7⟩
-    have hP7 : Post B c files H fs fs7 :=
-      ⟨W_of_mid files hW hm7 (by intro k hk; simp at hk; omega) htgt7 (Or.inl hTN7),
-        fun _ => by rw [hT7]; simp⟩
-    have e7 : (Op.removeAll (verDir B n)).apply fs6 = .ok fs7 := by simpa [Op.apply, verDir] using hr7
-    refine ⟨hsafeA _ (safe_append hsafeB hr3 (hsafeC _ fs6 (safe_cons_ok hP6 e7 (safe_nil hP7)))),
-      ⟨fs7, ?_, ?_⟩, hafter fs7 (by simp [tailOps, runOps, e7]) hT7⟩
-    · rw [hrunA, runOps_append_ok _ hr3, hrunC]
-      simp [tailOps, runOps, e7]
-    · refine ⟨hT7, hd7, hTN7, hm7, ?_, ?_⟩
-      · intro k hk r
-        simp at hk; subst hk
+        have : ¬ (B ++ [Name.ver n] <+: target B) := by
+          simp [target, List.prefix_append_right_inj, List.cons_prefix_cons]
+        simp [this, hT6]
+      have hTN7 : look fs7 (targetNew B) = none := by
         rw [h7]
-        have : B ++ [Name.ver n] <+: B ++ Name.ver n :: r := (prefix_ver_iff B _ _ r).2 rfl
-        simp [this]
-      · intro q hq
-        rw [h7]
-        have : ¬ (B ++ [Name.ver n] <+: q) := fun h => not_ext_prefix B (.ver n) [] (h.trans hq)
-        simp [this]; exact hbase6 q hq
+        have : ¬ (B ++ [Name.ver n] <+: targetNew B) := by
+          simp [targetNew, List.prefix_append_right_inj, List.cons_prefix_cons]
+        simp [this, hTN6]
+      have hd7 : DirIs fs7 (verDir B c) (asMap files) := by
+        apply hd6.transport
+        intro r; rw [h7]; simp [hnot r]
+      have htgt7 : TgtOK B fs0 c0 fs7 (c + 1) (files :: H) :=
+        Or.inr (Or.inl ⟨c, files, hW.le, by omega, by simp, hT7, hd7⟩)
+      have hP7 : Post B fs0 c0 c files H fs fs7 :=
+        ⟨W_of_mid files hW hm7 (by intro k hk; simp at hk; omega) htgt7 (by rw [hTN7]; simp),
+          Or.inr ⟨hT7, hTd⟩⟩
+      have e7 : (Op.removeAll (verDir B n)).apply fs6 = .ok fs7 := by simpa [Op.apply, verDir] using hr7
+      refine ⟨hsafeA _ (safe_append hsafeB hr3 (hsafeC _ (safe_cons_ok hP6 e7 (safe_nil hP7)))),
+        fs7, none, ?_, ?_⟩
+      · rw [hrunA, runOps_append_ok _ hr3, hrunC]
+        simp [tailOps, runOps, e7]
+      · refine ⟨hok, fun _ => ⟨hT7, hd7, hTN7, hm7, ?_, ?_⟩, by simp,
+          fun _ => hafter fs7 (by simp [tailOps, runOps, e7]) hT7⟩
+        · intro k hk r
+          simp at hk; subst hk
+          rw [h7]
+          have : B ++ [Name.ver n] <+: B ++ Name.ver n :: r := (prefix_ver_iff B _ _ r).2 rfl
+          simp [this]
+        · intro q hq
+          rw [h7]
+          have : ¬ (B ++ [Name.ver n] <+: q) := fun h => not_ext_prefix B (.ver n) [] (h.trans hq)
+          simp [this]; exact hbase6 q hq
 
 /-! ### histories -/
 
-/-- Admissible initial file systems: the ancestors of the base are directories or missing, and
-nothing exists below the base yet. -/
+/-- Initial file systems of the property's own quantifier (first process on a new target): the
+ancestors of the base are directories or missing, and nothing exists below the base yet. -/
 def Clean (B : Path) (fs0 : FS) : Prop :=
   (∀ q, q <+: B → look fs0 q = none ∨ look fs0 q = some .dir) ∧
   (∀ x r, look fs0 (B ++ x :: r) = none)
 
+theorem prior_of_clean {B : Path} {fs0 : FS} (h : Clean B fs0) : Prior B 0 fs0 :=
+  ⟨h.1, fun n _ r => h.2 _ r, by simp [targetNew, h.2 .tgtNew []],
+    fun t ht => by simp [target, h.2 .tgt []] at ht⟩
+
+theorem clean_target_none {B : Path} {fs0 : FS} (h : Clean B fs0) : look fs0 (target B) = none := by
+  simpa [target] using h.2 .tgt []
+
 /-- History invariant: `W` plus what the live `Dir` remembers (`prev` is the version the target
 points to). -/
-def Inv (B : Path) (s : St) (H : List Files) : Prop :=
-  W B s.fs s.clock H ∧
-  ∀ n, s.prev = some n → n < s.clock ∧ look s.fs (target B) = some (.link (verDir B n))
+def Inv (B : Path) (fs0 : FS) (c0 : Nat) (s : St) (H : List Files) : Prop :=
+  W B fs0 c0 s.fs s.clock H ∧
+  ∀ n, s.prev = some n → c0 ≤ n ∧ n < s.clock ∧ look s.fs (target B) = some (.link (verDir B n))
 
-theorem inv_init (B : Path) (fs0 : FS) (h : Clean B fs0) : Inv B (init fs0) [] := by
-  refine ⟨⟨h.1, fun n _ r => h.2 _ r, Or.inl (by simpa [target, init] using h.2 .tgt []),
-    Or.inl (by simpa [targetNew, init] using h.2 .tgtNew [])⟩, ?_⟩
-  intro n hn; simp [init] at hn
+theorem inv_init (B : Path) (fs0 : FS) (c0 : Nat) (hp : Prior B c0 fs0) :
+    Inv B fs0 c0 (initAt fs0 c0) [] := by
+  refine ⟨⟨hp.chain, hp.fresh, ?_, hp.tnew, Nat.le_refl _⟩, ?_⟩
+  · by_cases h : look fs0 (target B) = none
+    · exact Or.inl h
+    · exact Or.inr (Or.inr ⟨h, rfl, fun _ _ => rfl, fun _ _ _ => rfl⟩)
+  · intro n hn; simp [initAt] at hn
 
-theorem step_write_eq (B : Path) (s : St) (files : Files) (fs' : FS)
-    (h : runOps s.fs (writeOps B s.prev s.clock files) = (fs', none)) :
-    step B s (.write files) = { fs := fs', clock := s.clock + 1, prev := some s.clock, lastErr := none } := by
-  have h' : runOps s.fs (writeOpsOf fixedSteps B s.prev s.clock files) = (fs', none) := h
-  simp [step, stepWith, h']
+/-- State after a `Write` that ended in `fs'` with result `e`. -/
+def afterWrite (s : St) (fs' : FS) (e : Option Errno) : St :=
+  { fs := fs', clock := s.clock + 1, prev := (match e with | none => some s.clock | some _ => s.prev),
+    lastErr := e }
 
-theorem inv_step (B : Path) (s : St) (H : List Files) (ev : Ev) (h : Inv B s H) :
-    Inv B (step B s ev) (ev.files :: H) ∧
-    (look s.fs (target B) ≠ none → look (step B s ev).fs (target B) ≠ none) := by
-  obtain ⟨hW, hp⟩ := h
+theorem step_write_eq (B : Path) (s : St) (files : Files) (fs' : FS) (e : Option Errno)
+    (h : runOps s.fs (writeOps B s.prev s.clock files) = (fs', e)) :
+    step B s (.write files) = afterWrite s fs' e := by
+  have h' : runOps s.fs (writeOpsOf fixedSteps B s.prev s.clock files) = (fs', e) := h
+  simp only [step, stepWith, h', afterWrite]
+  cases e <;> rfl
+
+/-- One event: the invariant is kept; the target entry stays or (unless it was a directory)
+becomes the link to the new version. -/
+theorem inv_step (B : Path) (fs0 : FS) (c0 : Nat) (hp : Prior B c0 fs0) (s : St) (H : List Files)
+    (ev : Ev) (h : Inv B fs0 c0 s H) :
+    Inv B fs0 c0 (step B s ev) (ev.files :: H) ∧
+    (look (step B s ev).fs (target B) = look s.fs (target B) ∨
+      (look (step B s ev).fs (target B) = some (.link (verDir B s.clock)) ∧
+        look s.fs (target B) ≠ some .dir)) := by
+  obtain ⟨hW, hpv⟩ := h
   cases ev with
   | write files =>
-    obtain ⟨hsafe, ⟨fs', hrun, hfin⟩, _⟩ := write_spec B s.fs s.clock H files s.prev hW hp
-    have hP := safe_last hsafe hrun
+    obtain ⟨hsafe, fs', e, hrun, hout⟩ := write_spec B fs0 c0 hp s.fs s.clock H files s.prev hW hpv
+    have hP := safe_last hsafe
     rw [hrun] at hP
-    rw [step_write_eq B s files fs' hrun]
+    rw [step_write_eq B s files fs' e hrun]
     refine ⟨⟨hP.1, ?_⟩, hP.2⟩
     intro n hn
-    simp at hn; subst hn
-    exact ⟨by simp, hfin.tgt⟩
+    cases e with
+    | none =>
+      simp [afterWrite] at hn; subst hn
+      exact ⟨hW.le, by simp [afterWrite], (hout.fin rfl).tgt⟩
+    | some err =>
+      simp only [afterWrite] at hn
+      obtain ⟨h1, h2, h3⟩ := hpv n hn
+      refine ⟨h1, by simp [afterWrite]; omega, ?_⟩
+      simp only [afterWrite]
+      rw [(hout.failed (by simp)).tgt]; exact h3
   | crash files k =>
-    have hsafe := (write_spec B s.fs s.clock H files s.prev hW hp).1 k
+    have hsafe := (write_spec B fs0 c0 hp s.fs s.clock H files s.prev hW hpv).1 k
     refine ⟨⟨hsafe.1, ?_⟩, hsafe.2⟩
     intro n hn
     simp [step, stepWith] at hn
@@ -866,22 +1072,46 @@ theorem run_append (B : Path) (s : St) (e1 e2 : List Ev) :
     run B s (e1 ++ e2) = run B (run B s e1) e2 := by
   simp [run, runWith, List.foldl_append]
 
-theorem inv_run (B : Path) (evs : List Ev) : ∀ (s : St) (H : List Files), Inv B s H →
-    Inv B (run B s evs) ((evs.map Ev.files).reverse ++ H) ∧
-    (look s.fs (target B) ≠ none → look (run B s evs).fs (target B) ≠ none) := by
+theorem inv_run (B : Path) (fs0 : FS) (c0 : Nat) (hp : Prior B c0 fs0) (evs : List Ev) :
+    ∀ (s : St) (H : List Files), Inv B fs0 c0 s H →
+    Inv B fs0 c0 (run B s evs) ((evs.map Ev.files).reverse ++ H) ∧
+    (look s.fs (target B) ≠ none → look (run B s evs).fs (target B) ≠ none) ∧
+    (look s.fs (target B) = some .dir → look (run B s evs).fs (target B) = some .dir) := by
   induction evs with
-  | nil => intro s H h; exact ⟨by simpa [run, runWith] using h, fun h => h⟩
+  | nil => intro s H h; exact ⟨by simpa [run, runWith] using h, fun h => h, fun h => h⟩
   | cons ev evs ih =>
     intro s H h
-    obtain ⟨h1, hp1⟩ := inv_step B s H ev h
-    obtain ⟨h2, hp2⟩ := ih _ _ h1
+    obtain ⟨h1, hp1⟩ := inv_step B fs0 c0 hp s H ev h
+    obtain ⟨h2, hp2, hd2⟩ := ih _ _ h1
     rw [run_cons]
-    refine ⟨?_, fun h => hp2 (hp1 h)⟩
-    simpa using h2
+    refine ⟨by simpa using h2, ?_, ?_⟩
+    · intro hne
+      apply hp2
+      rcases hp1 with e | ⟨e, _⟩
+      · rw [e]; exact hne
+      · rw [e]; simp
+    · intro hd
+      apply hd2
+      rcases hp1 with e | ⟨_, e⟩
+      · rw [e]; exact hd
+      · exact absurd hd e
+
+theorem inv_history_at (B : Path) (fs0 : FS) (c0 : Nat) (hp : Prior B c0 fs0) (evs : List Ev) :
+    Inv B fs0 c0 (run B (initAt fs0 c0) evs) (evs.map Ev.files).reverse := by
+  simpa using (inv_run B fs0 c0 hp evs (initAt fs0 c0) [] (inv_init B fs0 c0 hp)).1
 
 theorem inv_history (B : Path) (fs0 : FS) (h0 : Clean B fs0) (evs : List Ev) :
-    Inv B (run B (init fs0) evs) (evs.map Ev.files).reverse := by
-  simpa using (inv_run B evs (init fs0) [] (inv_init B fs0 h0)).1
+    Inv B fs0 0 (run B (init fs0) evs) (evs.map Ev.files).reverse :=
+  inv_history_at B fs0 0 (prior_of_clean h0) evs
+
+/-- The target is a plain directory only if it was one when the process started. -/
+theorem tgt_not_dir {B : Path} {fs0 : FS} {c0 : Nat} {s : St} {H : List Files}
+    (h : Inv B fs0 c0 s H) (h0 : look fs0 (target B) ≠ some .dir) :
+    look s.fs (target B) ≠ some .dir := by
+  rcases h.1.tgt with e | ⟨n, fl, _, _, _, e, _⟩ | ⟨_, e, _⟩
+  · rw [e]; simp
+  · rw [e]; simp
+  · rw [e]; exact h0
 
 /-- What a reader sees when the target is a link to a directory. -/
 theorem resolve_link_dir (fs : FS) (p d : Path) (h1 : look fs p = some (.link d))
@@ -891,13 +1121,37 @@ theorem resolve_link_dir (fs : FS) (p d : Path) (h1 : look fs p = some (.link d)
 theorem resolve_none (fs : FS) (p : Path) (h : look fs p = none) : resolve fs p = none := by
   simp [resolve, resolveN, h]
 
-/-- Result of a complete `Write` in any state satisfying the invariant. -/
-theorem write_result (B : Path) (s : St) (H : List Files) (files : Files) (h : Inv B s H) :
+/-- Result of a complete `Write` with valid names in a state whose target is not a plain directory. -/
+theorem write_result (B : Path) (fs0 : FS) (c0 : Nat) (hp : Prior B c0 fs0) (s : St) (H : List Files)
+    (files : Files) (h : Inv B fs0 c0 s H) (hv : AllValid files)
+    (hnd : look s.fs (target B) ≠ some .dir) :
     ∃ fs', step B s (.write files) =
         { fs := fs', clock := s.clock + 1, prev := some s.clock, lastErr := none } ∧
       Final B s.clock s.prev s.fs fs' files := by
-  obtain ⟨_, ⟨fs', hrun, hfin⟩, _⟩ := write_spec B s.fs s.clock H files s.prev h.1 h.2
-  exact ⟨fs', step_write_eq B s files fs' hrun, hfin⟩
+  obtain ⟨_, fs', e, hrun, hout⟩ := write_spec B fs0 c0 hp s.fs s.clock H files s.prev h.1 h.2
+  have he : e = none := hout.ok_iff.2 ⟨hv, hnd⟩
+  subst he
+  exact ⟨fs', by rw [step_write_eq B s files fs' none hrun]; rfl, hout.fin rfl⟩
+
+/-- Result of a `Write` that returns an error (whatever the reason). -/
+theorem write_failed (B : Path) (fs0 : FS) (c0 : Nat) (hp : Prior B c0 fs0) (s : St) (H : List Files)
+    (files : Files) (h : Inv B fs0 c0 s H) (herr : (step B s (.write files)).lastErr ≠ none) :
+    Failed B s.clock s.fs (step B s (.write files)).fs ∧ (step B s (.write files)).prev = s.prev ∧
+    ¬ (AllValid files ∧ look s.fs (target B) ≠ some .dir) := by
+  obtain ⟨_, fs', e, hrun, hout⟩ := write_spec B fs0 c0 hp s.fs s.clock H files s.prev h.1 h.2
+  rw [step_write_eq B s files fs' e hrun] at herr ⊢
+  cases e with
+  | none => simp [afterWrite] at herr
+  | some err =>
+    exact ⟨hout.failed (by simp), rfl, fun hc => by have := hout.ok_iff.2 hc; simp at this⟩
+
+/-- A `Write` returns nil exactly when its names are valid and the target is not a plain directory. -/
+theorem write_ok_iff (B : Path) (fs0 : FS) (c0 : Nat) (hp : Prior B c0 fs0) (s : St) (H : List Files)
+    (files : Files) (h : Inv B fs0 c0 s H) :
+    (step B s (.write files)).lastErr = none ↔ (AllValid files ∧ look s.fs (target B) ≠ some .dir) := by
+  obtain ⟨_, fs', e, hrun, hout⟩ := write_spec B fs0 c0 hp s.fs s.clock H files s.prev h.1 h.2
+  rw [step_write_eq B s files fs' e hrun]
+  exact hout.ok_iff
 
 /-! ### crash-free histories: exactly one version directory -/
 
@@ -934,33 +1188,44 @@ theorem only_after_write (B : Path) (c : Nat) (prev : Option Nat) (fs fs' : FS) 
       · subst hx
         exact ht (Or.inr (Or.inr (Or.inr ⟨n, rfl, (prefix_ver_iff B _ _ r).2 rfl⟩)))
 
-/-- Crash-free invariant. -/
-def CF (B : Path) (s : St) : Prop := (∃ H, Inv B s H) ∧ PreOnly B s.fs s.prev
+/-- Crash-free invariant (first process on a clean target). -/
+def CF (B : Path) (fs0 : FS) (s : St) : Prop :=
+  (∃ H, Inv B fs0 0 s H) ∧ PreOnly B s.fs s.prev ∧ look s.fs (target B) ≠ some .dir
 
-theorem cf_step (B : Path) (s : St) (w : Files) (h : CF B s) :
-    CF B (step B s (.write w)) ∧
+theorem cf_step (B : Path) (fs0 : FS) (h0 : Clean B fs0) (s : St) (w : Files) (hv : AllValid w)
+    (h : CF B fs0 s) :
+    CF B fs0 (step B s (.write w)) ∧
     ∃ fs', step B s (.write w) = { fs := fs', clock := s.clock + 1, prev := some s.clock, lastErr := none } ∧
       Final B s.clock s.prev s.fs fs' w ∧ OnlyVersion B fs' s.clock := by
-  obtain ⟨⟨H, hinv⟩, hpre⟩ := h
-  obtain ⟨fs', hstep, hfin⟩ := write_result B s H w hinv
+  obtain ⟨⟨H, hinv⟩, hpre, hnd⟩ := h
+  have hp := prior_of_clean h0
+  obtain ⟨fs', hstep, hfin⟩ := write_result B fs0 0 hp s H w hinv hv hnd
   have honly := only_after_write B _ _ _ fs' w hfin hpre
-  refine ⟨⟨⟨_, (inv_step B s H (.write w) hinv).1⟩, ?_⟩, fs', hstep, hfin, honly⟩
-  rw [hstep]; exact honly
+  refine ⟨⟨⟨_, (inv_step B fs0 0 hp s H (.write w) hinv).1⟩, ?_, ?_⟩, fs', hstep, hfin, honly⟩
+  · rw [hstep]; exact honly
+  · rw [hstep]; simp only []; rw [hfin.tgt]; simp
 
-theorem cf_run (B : Path) (ws : List Files) : ∀ s, CF B s → CF B (run B s (ws.map .write)) := by
+theorem cf_run (B : Path) (fs0 : FS) (h0 : Clean B fs0) (ws : List Files) :
+    (∀ w ∈ ws, AllValid w) → ∀ s, CF B fs0 s → CF B fs0 (run B s (ws.map .write)) := by
   induction ws with
-  | nil => intro s h; exact h
-  | cons w ws ih => intro s h; exact ih _ (cf_step B s w h).1
+  | nil => intro _ s h; exact h
+  | cons w ws ih =>
+    intro hv s h
+    exact ih (fun w' hw' => hv w' (by simp [hw'])) _ (cf_step B fs0 h0 s w (hv w (by simp)) h).1
 
-theorem cf_init (B : Path) (fs0 : FS) (h0 : Clean B fs0) : CF B (init fs0) :=
-  ⟨⟨[], inv_init B fs0 h0⟩, by simpa [PreOnly, init] using h0.2⟩
+theorem cf_init (B : Path) (fs0 : FS) (h0 : Clean B fs0) : CF B fs0 (init fs0) :=
+  ⟨⟨[], inv_init B fs0 0 (prior_of_clean h0)⟩, by simpa [PreOnly, init, initAt] using h0.2,
+    by simp [init, initAt, clean_target_none h0]⟩
 
 /-! ### crash after the rename: the target is present -/
 
-theorem crash_after_rename_present (B : Path) (s : St) (H : List Files) (files : Files) (k : Nat)
-    (h : Inv B s H) (hk : files.length + 5 ≤ k) :
-    look (step B s (.crash files k)).fs (target B) = some (.link (verDir B s.clock)) :=
-  (write_spec B s.fs s.clock H files s.prev h.1 h.2).2.2 k hk
+theorem crash_after_rename_present (B : Path) (fs0 : FS) (c0 : Nat) (hp : Prior B c0 fs0) (s : St)
+    (H : List Files) (files : Files) (k : Nat)
+    (h : Inv B fs0 c0 s H) (hv : AllValid files) (hnd : look s.fs (target B) ≠ some .dir)
+    (hk : files.length + 5 ≤ k) :
+    look (step B s (.crash files k)).fs (target B) = some (.link (verDir B s.clock)) := by
+  obtain ⟨_, fs', e, hrun, hout⟩ := write_spec B fs0 c0 hp s.fs s.clock H files s.prev h.1 h.2
+  exact hout.after (hout.ok_iff.2 ⟨hv, hnd⟩) k hk
 
 /-! ### the code before the repair: a stale `.new` blocks every later Write -/
 
@@ -1012,6 +1277,7 @@ theorem writeFile_frame (fs fs' : FS) (p q : Path) (b : Bytes) (hq : q ≠ p)
 def NoTouch (q : Path) : Op → Prop
   | .mkdirAll p => ¬ q <+: p
   | .writeFile p _ => q ≠ p
+  | .badName _ => True
   | _ => False
 
 theorem runOps_frame (q : Path) (ops : List Op) : ∀ (fs : FS), (∀ op ∈ ops, NoTouch q op) →
@@ -1039,6 +1305,7 @@ theorem runOps_frame (q : Path) (ops : List Op) : ∀ (fs : FS), (∀ op ∈ ops
       | symlink t p => exact absurd hop (by simp [NoTouch])
       | rename o n => exact absurd hop (by simp [NoTouch])
       | removeAll p => exact absurd hop (by simp [NoTouch])
+      | badName nm => simp [Op.apply] at hap
 
 theorem runOps_append (fs : FS) (a b : List Op) :
     runOps fs (a ++ b) =
@@ -1083,7 +1350,7 @@ theorem orig_runOps_blocked (B : Path) (fs : FS) (prev : Option Nat) (c : Nat) (
     rcases hop with (rfl | rfl) | ⟨kb, _, rfl⟩
     · exact not_ext_prefix B _ []
     · exact targetNew_not_prefix_ver B _
-    · simp [NoTouch, targetNew, verDir]
+    · by_cases hv : validName kb.1 = true <;> simp [hv, NoTouch, targetNew, verDir]
   have hframe := runOps_frame (targetNew B) _ fs hpre
   rw [origOps_eq, runOps_append]
   generalize hr : runOps fs ([.mkdirAll B, .mkdirAll (verDir B c)] ++ wfOps B c files) = r at hframe
@@ -1105,43 +1372,100 @@ theorem orig_write_blocked (B : Path) (s : St) (files : Files)
 
 /-! ### residue of a call that was itself interrupted -/
 
-/-- `fs'` differs from `fs` only inside version directories that exist (id below the clock) and
-that the target does not point to: what a `WriteFile` or `RemoveAll` killed half-way can leave
-(`WriteFile` only writes into the not yet linked new version, `RemoveAll` only deletes the
-version the target no longer points to). -/
-def ResidueOnly (B : Path) (clock : Nat) (fs fs' : FS) : Prop :=
+/-- `fs'` differs from `fs` only by what a single `os` call of `Write` that is not one system call
+can leave when the process dies inside it:
+* `MkdirAll`: some missing ancestors of the base have been created (`mkdir` one by one);
+* `WriteFile` / `RemoveAll`: anything inside a version directory that exists (id below the clock)
+  and that the target does not point to (`WriteFile` only writes into the not yet linked new
+  version, `RemoveAll` only deletes the version the target no longer points to). -/
+def ResidueOnly (B : Path) (c0 clock : Nat) (fs fs' : FS) : Prop :=
   ∀ q, look fs' q = look fs q ∨
-    ∃ n r, q = B ++ .ver n :: r ∧ n < clock ∧ look fs (target B) ≠ some (.link (verDir B n))
+    (q <+: B ∧ look fs q = none ∧ look fs' q = some .dir) ∨
+    ∃ n r, q = B ++ .ver n :: r ∧ c0 ≤ n ∧ n < clock ∧
+      look fs (target B) ≠ some (.link (verDir B n))
 
-theorem inv_of_residue (B : Path) (s : St) (H : List Files) (fs' : FS) (h : Inv B s H)
-    (hd : ResidueOnly B s.clock s.fs fs') :
-    Inv B { s with fs := fs', prev := none } H := by
+theorem inv_of_residue (B : Path) (fs0 : FS) (c0 : Nat) (hp : Prior B c0 fs0) (s : St)
+    (H : List Files) (fs' : FS) (h : Inv B fs0 c0 s H)
+    (hd : ResidueOnly B c0 s.clock s.fs fs') :
+    Inv B fs0 c0 { s with fs := fs', prev := none } H := by
   obtain ⟨hW, _⟩ := h
-  have same : ∀ q, (∀ n r, q ≠ B ++ Name.ver n :: r) → look fs' q = look s.fs q := by
-    intro q hq
-    rcases hd q with h | ⟨n, r, e, _⟩
+  have same : ∀ q, ¬ q <+: B → (∀ n r, q ≠ B ++ Name.ver n :: r) → look fs' q = look s.fs q := by
+    intro q hqB hq
+    rcases hd q with h | ⟨h, _⟩ | ⟨n, r, e, _⟩
     · exact h
+    · exact absurd h hqB
     · exact absurd e (hq n r)
-  have hT : look fs' (target B) = look s.fs (target B) := same _ (by intro n r; simp [target])
-  have hTN : look fs' (targetNew B) = look s.fs (targetNew B) := same _ (by intro n r; simp [targetNew])
-  refine ⟨⟨?_, ?_, ?_, ?_⟩, by intro n hn; simp at hn⟩
+  have hT : look fs' (target B) = look s.fs (target B) :=
+    same _ (not_ext_prefix B _ []) (by intro n r; simp [target])
+  have hTN : look fs' (targetNew B) = look s.fs (targetNew B) :=
+    same _ (not_ext_prefix B _ []) (by intro n r; simp [targetNew])
+  have hver : ∀ n r, look s.fs (target B) = some (.link (verDir B n)) →
+      look fs' (B ++ .ver n :: r) = look s.fs (B ++ .ver n :: r) := by
+    intro n r hl
+    rcases hd (B ++ .ver n :: r) with h | ⟨h, _⟩ | ⟨m, r', e, _, _, hne⟩
+    · exact h
+    · exact absurd h (not_ext_prefix B _ r)
+    · have : n = m := (by simpa using (List.append_cancel_left e) : n = m ∧ _).1
+      subst this; exact absurd hl hne
+  refine ⟨⟨?_, ?_, ?_, ?_, hW.le⟩, by intro n hn; simp at hn⟩
   · intro q hq
-    rw [same q (fun n r e => not_ext_prefix B _ r (e ▸ hq))]
-    exact hW.chain q hq
+    rcases hd q with h | ⟨_, _, h⟩ | ⟨n, r, e, _⟩
+    · rw [h]; exact hW.chain q hq
+    · exact Or.inr h
+    · exact absurd (e ▸ hq) (not_ext_prefix B _ r)
   · intro n hn r
-    rcases hd (B ++ .ver n :: r) with h | ⟨m, r', e, hm, _⟩
+    rcases hd (B ++ .ver n :: r) with h | ⟨h, _⟩ | ⟨m, r', e, _, hm, _⟩
     · rw [h]; exact hW.fresh n hn r
+    · exact absurd h (not_ext_prefix B _ r)
     · have : n = m := (by simpa using (List.append_cancel_left e) : n = m ∧ _).1
       simp only [] at hn; omega
-  · rcases hW.tgt with h | ⟨n, fl, hn, hmem, hl, hdir⟩
+  · rcases hW.tgt with h | ⟨n, fl, hn0, hn, hmem, hl, hdir⟩ | ⟨h1, h2, h3, h4⟩
     · left; rw [hT]; exact h
-    · right
-      refine ⟨n, fl, hn, hmem, by rw [hT]; exact hl, hdir.transport ?_⟩
-      intro r
-      rcases hd (B ++ .ver n :: r) with h | ⟨m, r', e, _, hne⟩
-      · exact h
-      · have : n = m := (by simpa using (List.append_cancel_left e) : n = m ∧ _).1
-        subst this; exact absurd hl hne
+    · right; left
+      exact ⟨n, fl, hn0, hn, hmem, by rw [hT]; exact hl, hdir.transport (fun r => hver n r hl)⟩
+    · right; right
+      refine ⟨h1, by rw [hT]; exact h2, ?_, ?_⟩
+      · intro x r
+        have e : target B ++ x :: r = B ++ .tgt :: x :: r := by simp [target]
+        rw [same _ (by rw [e]; exact not_ext_prefix B _ _) (by intro n r'; rw [e]; simp)]
+        exact h3 x r
+      · intro t ht r
+        have hf := hp.tlink t ht
+        -- below a foreign path nothing of this process's version directories or of the base chain lies
+        have hnt := not_touch_foreign (c := s.clock) (rm := none) hf hW.le (by simp) r
+        rcases hd (t ++ r) with h | ⟨h, _⟩ | ⟨n, r', e, hn0, _, _⟩
+        · rw [h]; exact h4 t ht r
+        · exact absurd h hnt.1
+        · -- residue lies in a version directory of this process (id ≥ c0): never below a foreign path
+          exfalso
+          have hnt' := not_touch_foreign (c := n) (rm := none) hf hn0 (by simp) r
+          apply hnt'.2
+          right; right; left
+          rw [e]; simp [verDir]
   · rw [hTN]; exact hW.tnew
+
+/-! ### small corollaries used by the property theorems -/
+
+/-- On a clean start the pre-existing-entry alternative of `TgtOK` cannot occur. -/
+theorem absent_or_complete_of_clean {B : Path} {fs0 fs : FS} {clock : Nat} {H : List Files}
+    (h0 : Clean B fs0) (h : TgtOK B fs0 0 fs clock H) :
+    look fs (target B) = none ∨ Complete B 0 fs clock H := by
+  rcases h with h | h | ⟨h, _⟩
+  · exact Or.inl h
+  · exact Or.inr h
+  · exact absurd (clean_target_none h0) h
+
+/-- A failed `Write` leaves the directory the target points to intact. -/
+theorem Failed.keeps_dir {B : Path} {c : Nat} {fs fs' : FS} (hf : Failed B c fs fs')
+    (hfresh : ∀ r, look fs (B ++ .ver c :: r) = none) (n : Nat) (m : Name → Option Bytes)
+    (hd : DirIs fs (verDir B n) m) : DirIs fs' (verDir B n) m := by
+  have hne : n ≠ c := by
+    intro e; subst e
+    have := hfresh []
+    rw [show B ++ [Name.ver n] = verDir B n from rfl, hd.1] at this
+    simp at this
+  apply hd.transport
+  intro r
+  exact hf.mid.off _ (not_ext_prefix B _ r) (not_touch_ver B c n none r hne (by simp))
 
 end Kit.Dir
